@@ -2024,10 +2024,21 @@ func (s *c14Sink) Write(b []byte) (int, error) {
 // rather than the text of the property.
 const c14BC = "mechanism: "
 
-const (
-	c14Early = 2 * time.Millisecond // the channel may close this much before the deadline (clock granularity)
-	c14Late  = 3 * time.Second      // ... and this much after it (loaded machine)
-)
+const c14Early = 2 * time.Millisecond // the channel may close this much before the deadline (clock granularity)
+
+// c14Late: the channel may close this much after the deadline, and every other wait for the driver is
+// bounded by it (loaded machine).  A failure that consists in having waited this long is not a verdict
+// on a machine that is busy with other work: the session is run again, ALONE, with c14LateRetry, and
+// only a second failure is reported (a driver that really misses its deadline misses it again).
+var c14Late = 3 * time.Second
+
+const c14LateRetry = 15 * time.Second
+
+// timedOut recognises the failures that consist in having waited c14Late.
+func timedOut(msg string) bool {
+	return strings.Contains(msg, "within 3 s") || strings.Contains(msg, "+ 3 s after") || strings.Contains(msg, "still open 3 s") ||
+		strings.Contains(msg, "isready written during the search")
+}
 
 // c14Sess is one driver with its blocking mock search.
 type c14Sess struct {
@@ -2246,6 +2257,44 @@ func suiteC14(ctx *common.Ctx, workers int) {
 		}()
 	}
 	wg.Wait()
+	// time-outs are re-examined: the whole session again, alone, with the long tolerance (a mock that reads the
+	// ponderhit channel "later than the tolerance" is moved out accordingly)
+	retried := 0
+	for si := range sessions {
+		lo, hi := sessions[si][0], sessions[si][1]
+		bad := false
+		for i := lo; i < hi; i++ {
+			bad = bad || timedOut(fails[i])
+		}
+		if !bad || retried >= 3 {
+			continue
+		}
+		retried++
+		c14Late = c14LateRetry
+		sess := newC14Sess()
+		clean, lastRun := true, -1
+		for i := lo; i < hi && clean; i++ {
+			if static[i] != "" && (cases[i].hard <= 0 || cases[i].hard > 4*maxHard) {
+				break
+			}
+			c := cases[i]
+			if c.hitReadMs > c.ponderMs+3000 {
+				c.hitReadMs = c.ponderMs + int(c14LateRetry.Milliseconds()) + 1500
+			}
+			fails[i], late[i] = sess.run(&c)
+			ran[i], lastRun = true, i
+			clean = fails[i] == ""
+		}
+		if f := sess.end(clean); f != "" && clean && lastRun >= 0 {
+			fails[lastRun] = f
+		}
+		c14Late = 3 * time.Second
+		if lastRun < 0 || fails[lastRun] == "" {
+			res.Count("timeout_under_load_passed_when_run_alone", 1)
+		} else {
+			fails[lastRun] += " [again when the session was run alone with a tolerance of 15 s]"
+		}
+	}
 	var worst int64
 	for i := range cases {
 		c := &cases[i]
@@ -2707,6 +2756,20 @@ func suiteGoargs(ctx *common.Ctx, workers int) {
 		}()
 	}
 	wg.Wait()
+	// time-outs are re-examined: the case again, alone on a fresh driver, with the long tolerance
+	retried := 0
+	for i := range cases {
+		if timedOut(impl[i]) && retried < 4 {
+			retried++
+			c14Late = c14LateRetry
+			impl[i], note[i] = "", ""
+			goargsSession(cases[i:i+1], impl[i:i+1], note[i:i+1])
+			c14Late = 3 * time.Second
+			if !timedOut(impl[i]) {
+				res.Count("timeout_under_load_passed_when_run_alone", 1)
+			}
+		}
+	}
 	var model []string
 	if ctx.Driver != "" {
 		mdl := common.StartModel(ctx.Driver)
